@@ -67,7 +67,10 @@ pub fn run(args: &[String]) {
 
 /// `vh cargobuild FILE`: the build-script helper (needs OUT_DIR); it terminates the process on errors by itself
 pub fn run_cargobuild(args: &[String]) {
-    if args[0] == "--tosource" {
+    if args[0] == "--many" {
+        let files: Vec<&String> = args[1..].iter().collect();
+        varlink_generator::cargo_build_many(&files);
+    } else if args[0] == "--tosource" {
         // writes <dir>/<name with _ for .>.rs beside the input
         varlink_generator::cargo_build_tosource(&args[1], false);
     } else {
